@@ -301,7 +301,7 @@ def handler_life(maxretries):
     return scenario
 
 
-def handshake(nbits, per_step=False):
+def handshake(nbits, per_step=False, sim_drops=False):
     def scenario(sx):
         from sx.vloop import patched_time
         from geckolib.spa import GeckoSpa
@@ -317,6 +317,23 @@ def handshake(nbits, per_step=False):
             snap = GeckoSnapshot.parse_log_file(os.path.join(SNAPDIR, "default.snapshot"))[0]
             sim.set_snapshot(snap)
             sim._socket._socket = MockSocket(clock)
+            restore = []
+            if sim_drops:
+                # the simulator's own lossy mode (its `reliability` command): exactly one of its first 36 keep/ignore
+                # draws says ignore - a whole request, or one segment of the status answer
+                import geckolib.utils.simulator as simmod
+                drop_at = sx.choice("simulator_ignores_draw", 36)
+                calls = [0]
+
+                class _Rnd:
+                    @staticmethod
+                    def random():
+                        calls[0] += 1
+                        return 0.9 if calls[0] - 1 == drop_at else 0.1
+                restore.append((simmod, simmod.random))
+                simmod.random = _Rnd
+                sim._reliability = 0.5
+                simmod.print = lambda *a, **k: None          # (the simulator announces every ignored request)
             spa = GeckoSpa(_Desc())
             spa._socket = MockSocket(clock)
             spa.open = lambda: None
@@ -386,6 +403,10 @@ def handshake(nbits, per_step=False):
                 spa._loop_func()
                 if not progressed and not spa._send_handlers:
                     clock._t += 5.0       # nothing in flight: let the pending request time out and retry
+            for mod_, rnd_ in restore:
+                mod_.random = rnd_
+                if "print" in mod_.__dict__:
+                    del mod_.print
             sx.observe("iterations", it)
             sx.check(spa._is_connected, "hs.handshake-completes-when-one-attempt-per-step-gets-through")
             sx.check(spa.struct.status_block == sim.structure.status_block, "hs.client-block-identical-to-the-simulators")
@@ -404,6 +425,8 @@ def units(tier):
     for n in range(N + 1):
         yield Unit(f"handler-life.retries{n}", handler_life(N), presets={"retries": n}, max_paths=400000, max_depth=3000)
     yield Unit("handshake", handshake(5 if q else 8), validate=False, max_paths=100000)
+    yield Unit("handshake.simulator-drops", handshake(0, sim_drops=True), validate=False, max_paths=100000,
+               presets={"lost_status_segment": 0})
     for k in range(4):
         yield Unit(f"handshake.lossy-steps.{k}", handshake(0, per_step=True), validate=False, max_paths=100000,
                    presets={"lost_attempts_AVERS": k})
